@@ -15,6 +15,8 @@ GenStep ==
   \/ \E s \in Subs : Write(s) /\ hist' = Append(hist, Ev("write", s, s))
   \/ \E s \in Subs : Wait(s) /\ hist' = Append(hist, Ev("wait", s, s))
   \/ \E s \in Subs : Answer(s) /\ hist' = Append(hist, Ev("answer", ReaderProc, s))
+  \/ \E s \in Subs : DeliverFind(s) /\ hist' = Append(hist, Ev("dfind", ReaderProc, s))
+  \/ DeliverSend /\ hist' = Append(hist, Ev("dsend", ReaderProc, found))
   \/ Lose /\ hist' = Append(hist, Ev("lose", ReaderProc, 0))
   \/ ReaderSwap /\ hist' = Append(hist, Ev("rswap", ReaderProc, 0))
   \/ \E p \in Procs, c \in Subs : CloseComplete(p, c) /\ hist' = Append(hist, Ev("ccomp", p, c))
@@ -29,4 +31,6 @@ GenNext ==
      /\ PrintT(<<"T", ToJson(hist)>>)
 
 GenConstraint == FirstIsOne
+\* streaming family: at most two data deliveries per behaviour keep the enumeration small
+GenStreamConstraint == FirstIsOne /\ Cardinality({i \in 1..Len(hist) : hist[i].e = "dfind"}) <= 1
 =============================================================================
